@@ -327,6 +327,8 @@ def diff_obs(a, b):
 
 class C13(Check):
     pid = "C13"
+    case_timeout = 900
+    budget_thorough = 2400
     level = "model_checking"
     rule = ("states are event histories over 31 events: 15 mutations through rope (moves of a file across the default ignore pattern `*~` in both directions, content edits that add/remove definitions and "
             "imports, create file/folder, move file into package, rename package folder, move onto another module name, remove, "
@@ -344,11 +346,11 @@ class C13(Check):
     budget_quick = 200
 
     def bound_text(self, tier):
-        return "depth 3 over 31 events" if tier == "quick" else "depth 4 over 31 events; depth 5 over a 13-event sub-alphabet"
+        return "depth 3 over 31 events" if tier == "quick" else "depth 3 over 31 events; depth 5 over a 15-event sub-alphabet"
 
     def cases(self, tier):
         out = []
-        plan = [("full", 3)] if tier == "quick" else [("full", 4), ("small", 5)]
+        plan = [("full", 3)] if tier == "quick" else [("full", 3), ("small", 5)]
         for alpha, depth in plan:
             names = ALPHA_FULL if alpha == "full" else ALPHA_SMALL
             for a in names:
